@@ -3,6 +3,7 @@ mod common;
 mod fixtures;
 mod refmodel;
 mod scen_blind;
+mod scen_sweep;
 mod scen_burst;
 mod scen_codec;
 mod scen_conform;
@@ -192,8 +193,11 @@ fn node_init() {
 fn main() {
     zksim_core::entropy::ensure_shim();
     sim::install_quiet_panic_hook();
+    sim::install_log_sink();
     sim::set_node_init(node_init);
     let args: Vec<String> = std::env::args().collect();
+    // (before anything else touches the library: the child process of a cold-start probe)
+    if args.get(1).map(|s| s.as_str()) == Some("coldstart") { scen_burst::coldstart_child(&args[2..]); return; }
     if args.get(1).map(|s| s.as_str()) == Some("debugjson") { debug_json(); return; }
     if args.get(1).map(|s| s.as_str()) == Some("fixtures") {
         match fixtures::check_all() {
